@@ -203,9 +203,21 @@ def _numeric_order_cases():
                                "terms": [terms[i] for i in order]}
 
 
+def _multicolumn_cases():
+    """Two numeric atoms of several columns each in one interaction, next to each other and apart, with and without a
+    factor, in every order of the factors (equal and unequal numbers of columns)."""
+    for a, b in (("poly(x, 2)", "poly(z, 2)"), ("poly(x, 2)", "bs(z, df=3)"), ("bs(x, df=4)", "poly(z, 3)"), ("poly(x, 2)", "poly(z, 3)")):
+        reps = 2 * (1 + rc.NUM_WIDTH[a]) * (1 + rc.NUM_WIDTH[b])
+        for factors in ([a, b], [a, b, "f"]):
+            for order in itertools.permutations(factors):
+                for style in ("implicit", "0+"):
+                    yield {"levels": {"f": 2}, "reps": reps, "seed": 4, "catkinds": {}, "intercept": style, "terms": [list(order)]}
+                yield {"levels": {"f": 2}, "reps": reps, "seed": 4, "catkinds": {}, "intercept": "implicit", "terms": [[a], [b], list(order)]}
+
+
 def _small_worker(ctx, arg):
     shard, n = arg
-    for i, case in enumerate(itertools.chain(_small_cases(), _numeric_order_cases())):
+    for i, case in enumerate(itertools.chain(_small_cases(), _numeric_order_cases(), _multicolumn_cases())):
         if i % n == shard:
             judge(ctx, case)
 
